@@ -40,7 +40,7 @@ class IdentityLinearOperator(ConstantDiagLinearOperator):
         self.diag_shape = diag_shape
         self._batch_shape = batch_shape
         self._dtype = dtype
-        self._device = device
+        self._device = one.device
 
     @property
     def batch_shape(self) -> torch.Size:
